@@ -46,6 +46,18 @@ register(
     "DESIGN.md §3 C08",
 )
 
+register(
+    "C16",
+    "explicit-state exploration of all case/event/call histories (every order, count, tie and NaN pattern from a case menu) on the real cla containers against an order-free reference model",
+    "Every sequence of cases up to the bound is fed to cla.extrema (1-/2-column, all abscissa/label/casenum variants), "
+    "to real DR_Results through time/frf/psd data recovery (incl. SRS envelopes), to form_extreme over all "
+    "bracketings/orders/doappend modes and to apply_uf over all call sequences sharing one cache; the container is "
+    "compared with an order-free reference after every step. Exhaustive within the case menu and length bounds.",
+    "Trusted: reference model in vf/checks/c16.py (transcribes the docstrings); per-case SRS values are pyYeti's own "
+    "(C03); case menu of 6-11 cases over values {-2..2, NaN}; history length <=5.",
+    "DESIGN.md §3 C16",
+)
+
 
 def build():
     checks = []
